@@ -93,6 +93,7 @@ func (i *ident) tlsCert(chain ...*ident) tls.Certificate {
 
 type pki struct {
 	ca, server, valid, wrongName, selfSigned, foreignCA, foreign, expired, inter, underInter, neutralInter, validUnderNeutral, revoked *ident
+	srvRoot, srvInter, serverB, underSrvInter                                                                                          *ident
 	nameVariants                                                                                                                       map[string]*ident
 	dir                                                                                                                                string
 }
@@ -120,6 +121,13 @@ func newPKI() *pki {
 	p.valid = issue(ruleName, false, p.ca, ok1, ok2)
 	p.wrongName = issue("mallory", false, p.ca, ok1, ok2)
 	p.revoked = issue(revokedName, false, p.ca, ok1, ok2)
+	// a server certificate of ANOTHER hierarchy (its own root and intermediate; the server's certificate file is then a bundle: leaf
+	// plus intermediate), and a client certificate with the rule's name issued by that intermediate: the server's own chain is not a
+	// CA for clients
+	p.srvRoot = issue("server-root", true, nil, ok1, ok2)
+	p.srvInter = issue("server-intermediate", true, p.srvRoot, ok1, ok2)
+	p.serverB = issue("localhost", false, p.srvInter, ok1, ok2)
+	p.underSrvInter = issue(ruleName, false, p.srvInter, ok1, ok2)
 	// names that differ from the rule's name by case, by a character that case-folds to one of its letters (U+017F folds to s), by
 	// white space or by one character: the rule names ONE name
 	p.nameVariants = map[string]*ident{}
@@ -143,6 +151,8 @@ func newPKI() *pki {
 	os.WriteFile(filepath.Join(dir, "server.crt"), p.server.certPEM(), 0o600)
 	os.WriteFile(filepath.Join(dir, "server.key"), p.server.keyPEM(), 0o600)
 	os.WriteFile(filepath.Join(dir, "ca.crt"), p.ca.certPEM(), 0o600)
+	os.WriteFile(filepath.Join(dir, "server-bundle.crt"), append(p.serverB.certPEM(), p.srvInter.certPEM()...), 0o600)
+	os.WriteFile(filepath.Join(dir, "server-bundle.key"), p.serverB.keyPEM(), 0o600)
 	// the foreign CA is one the HOST trusts (as any public CA would be): it is the only entry of the process's system trust
 	// store.  A server that must let in clients of the configured CA only may not fall back on that store.
 	os.WriteFile(filepath.Join(dir, "hosttrust.pem"), p.foreignCA.certPEM(), 0o600)
@@ -157,6 +167,7 @@ func (p *pki) cleanup() { os.RemoveAll(p.dir) }
 func (p *pki) clientConfig(cert *tls.Certificate) *tls.Config {
 	pool := x509.NewCertPool()
 	pool.AddCert(p.ca.cert)
+	pool.AddCert(p.srvRoot.cert) // (clients also trust the root of the second server hierarchy)
 	cfg := &tls.Config{RootCAs: pool, ServerName: "localhost", MinVersion: tls.VersionTLS12}
 	if cert != nil {
 		cfg.Certificates = []tls.Certificate{*cert}
@@ -708,6 +719,7 @@ func modeTLSGate(args []string) {
 			passwordChangePhase(p, cfgName, pw)
 		}
 	}
+	bundlePhase(p)
 }
 
 // passwordChangePhase runs on a server of its own (configuration cfgName: a common-name rule, with or without a password).
@@ -773,6 +785,52 @@ func passwordChangePhase(p *pki, cfgName string, pw string) {
 	pws = []string{"changed-3", "changed-2", "changed-1", pw}
 	tryRefused("+password-changed-twice-and-restarted", "wrongname", p.wrongName.tlsCert(), pws)
 	tryRefused("+password-changed-twice-and-restarted", "selfsigned", p.selfSigned.tlsCert(), pws)
+}
+
+// bundlePhase: a server whose certificate file is a bundle (leaf + intermediate) of a hierarchy that is NOT the configured client CA.
+func bundlePhase(p *pki) {
+	cfgName := "rule+server-bundle"
+	var s *sut
+	var err error
+	for try := 0; try < 6; try++ {
+		s = newSUT(p, "both", true, "")
+		must(s.srv.SetTLSCertFile(filepath.Join(p.dir, "server-bundle.crt")))
+		must(s.srv.SetTLSKeyFile(filepath.Join(p.dir, "server-bundle.key")))
+		if err = s.srv.Start(); err == nil || !strings.Contains(err.Error(), "address already in use") {
+			break
+		}
+		s.srv.Stop()
+		time.Sleep(20 * time.Millisecond)
+	}
+	if err != nil {
+		emit(map[string]any{"error": "start with a bundled server certificate: " + err.Error(), "config": cfgName})
+		return
+	}
+	defer s.srv.Stop()
+	try := func(cred string, cert tls.Certificate) {
+		r := gateResult{Config: cfgName, Cred: cred, Fault: "complete", Order: "bad-first", GoodTLS: true, GoodPlain: plainAlive(s.plain)}
+		before := atomic.LoadInt64(&s.executed)
+		raw, err := net.DialTimeout("tcp", addr(s.secure), ioTimeout)
+		if err != nil {
+			r.Note = "dial: " + err.Error()
+		} else {
+			c := tls.Client(raw, p.clientConfig(&cert))
+			c.SetDeadline(time.Now().Add(ioTimeout))
+			if err := c.Handshake(); err == nil {
+				r.Handshake = true
+				rep, err := exchange(c, resp("WHOAMI"))
+				r.Served = err == nil && strings.HasPrefix(rep, "$")
+			}
+			raw.Close()
+		}
+		time.Sleep(2 * time.Millisecond)
+		r.Executed = atomic.LoadInt64(&s.executed) - before
+		emit(r)
+	}
+	try("valid", p.valid.tlsCert())
+	try("under-server-intermediate", p.underSrvInter.tlsCert())
+	try("under-server-intermediate", p.underSrvInter.tlsCert(p.srvInter))
+	try("valid", p.valid.tlsCert())
 }
 
 func idOr(id, cred string) string {
@@ -921,11 +979,22 @@ func oneEnding(p *pki, s *sut, mode string, k int) {
 		}
 	case "stops-reading":
 		if c, err := net.DialTimeout("tcp", addr(s.plain), ioTimeout); err == nil {
+			if tc, ok := c.(*net.TCPConn); ok {
+				tc.SetReadBuffer(8192) // a small receive window: the server's writes block after a few replies
+			}
 			c.SetDeadline(time.Now().Add(ioTimeout))
 			for i := 0; i < 40; i++ { // replies pile up unread until the server's writes block
 				if _, err := c.Write([]byte(resp("ECHO", big))); err != nil {
 					break
 				}
+			}
+			// VERIF_STALL_MS: every fourth stalled reader stays stalled this long before it goes away (longer than every
+			// write deadline or timeout the tree under test has: the driver sets it from the durations found in the source)
+			if ms, _ := strconv.Atoi(os.Getenv("VERIF_STALL_MS")); ms > 0 && k%4 == 0 {
+				// many small requests with large replies: far more reply bytes than the socket buffers of both ends hold
+				c.SetDeadline(time.Now().Add(ioTimeout))
+				c.Write([]byte(resp("SET", "stall:big", big) + strings.Repeat(resp("GET", "stall:big"), 600)))
+				time.Sleep(time.Duration(ms) * time.Millisecond)
 			}
 			rst(c)
 		}
@@ -986,6 +1055,11 @@ func oneEnding(p *pki, s *sut, mode string, k int) {
 	}
 }
 
+func stallHold() time.Duration {
+	ms, _ := strconv.Atoi(os.Getenv("VERIF_STALL_MS"))
+	return time.Duration(ms) * time.Millisecond
+}
+
 func modeChurn(args []string) {
 	cycles := 200
 	if len(args) > 0 {
@@ -1007,7 +1081,7 @@ func modeChurn(args []string) {
 	go func() {
 		for {
 			time.Sleep(time.Second)
-			if time.Since(time.Unix(0, atomic.LoadInt64(&progress))) > 40*time.Second {
+			if time.Since(time.Unix(0, atomic.LoadInt64(&progress))) > 40*time.Second+stallHold() {
 				emit(churnResult{Mode: current.Load().(string), Note: "no progress for 40 s: the server no longer answers (a registry query, the accept path, a connection's release or Stop does not return)"})
 				out.Flush()
 				p.cleanup() // (deferred calls do not run on os.Exit)
@@ -1178,7 +1252,11 @@ func modeLife(args []string) {
 func runLife(p *pki, cfg, seq string) (lifeObs, bool) {
 	{
 		portRace := false
-		s := newSUT(p, cfg, cfg != "plain", "")
+		sutCfg := cfg
+		if cfg == "plain-quit" { // the plain configuration, with clients that send QUIT and then keep their socket open (op q)
+			sutCfg = "plain"
+		}
+		s := newSUT(p, sutCfg, sutCfg != "plain", "")
 		runtime.GC()
 		g0 := runtime.NumGoroutine()
 		fd0 := fdTargets()
@@ -1189,6 +1267,7 @@ func runLife(p *pki, cfg, seq string) (lifeObs, bool) {
 			tls bool
 		}
 		var clients []cl
+		var quitters []net.Conn // clients that sent QUIT, got +OK and keep their end open
 		vc := p.valid.tlsCert()
 		checkServing := func(tag string) {
 			if s.plain != 0 {
@@ -1233,6 +1312,25 @@ func runLife(p *pki, cfg, seq string) (lifeObs, bool) {
 				c.c.Close()
 			}
 			clients = nil
+			for _, c := range quitters {
+				// the server's end is gone: a read sees the end, and what the client still writes is refused (reset) within moments
+				c.SetDeadline(time.Now().Add(ioTimeout))
+				if _, err := c.Read(make([]byte, 1)); err == nil || errors.Is(err, os.ErrDeadlineExceeded) {
+					o.Problems = append(o.Problems, tag+": the connection of a client that had sent QUIT is still open")
+				}
+				refused := false
+				for k := 0; k < 20 && !refused; k++ {
+					if _, err := c.Write([]byte(resp("PING"))); err != nil {
+						refused = true
+					}
+					time.Sleep(10 * time.Millisecond)
+				}
+				if !refused {
+					o.Problems = append(o.Problems, tag+": the server side of a connection whose client had sent QUIT still takes bytes after Stop")
+				}
+				c.Close()
+			}
+			quitters = nil
 			if !settle(func() bool { runtime.GC(); return runtime.NumGoroutine() <= g0 }, 3*time.Second) {
 				o.Problems = append(o.Problems, fmt.Sprintf("%s: %d server goroutines remain", tag, runtime.NumGoroutine()-g0))
 			}
@@ -1361,6 +1459,27 @@ func runLife(p *pki, cfg, seq string) (lifeObs, bool) {
 					o.Problems = append(o.Problems, fmt.Sprintf("%s: %d clients are being served, the registry holds %d", tag, want, len(s.srv.Conns())))
 				}
 				o.Steps = append(o.Steps, fmt.Sprintf("%c:%d", op, len(s.srv.Conns())))
+			case 'q':
+				// a client is served, sends QUIT, reads the reply and KEEPS its socket open: the server has released the connection
+				// (it leaves the registry); at Stop nothing of it is left - no goroutine, and its socket is closed on the server side
+				if !running || s.plain == 0 {
+					o.Steps = append(o.Steps, "q:skip")
+					continue
+				}
+				c, err := net.DialTimeout("tcp", addr(s.plain), ioTimeout)
+				if err != nil || !servedOn(c, "") {
+					o.Problems = append(o.Problems, tag+": a client could not be served while the server is running")
+					continue
+				}
+				if rep, err := exchange(c, resp("QUIT")); err != nil || !strings.HasPrefix(rep, "+OK") {
+					o.Problems = append(o.Problems, fmt.Sprintf("%s: QUIT was answered %q (%v)", tag, rep, err))
+				}
+				quitters = append(quitters, c)
+				want := len(clients)
+				if !settle(func() bool { return len(s.srv.Conns()) == want }, 2*time.Second) {
+					o.Problems = append(o.Problems, fmt.Sprintf("%s: %d clients are being served (one more has sent QUIT), the registry holds %d", tag, want, len(s.srv.Conns())))
+				}
+				o.Steps = append(o.Steps, fmt.Sprintf("q:%d", len(s.srv.Conns())))
 			case 'd':
 				if len(clients) == 0 {
 					o.Steps = append(o.Steps, "d:skip")
